@@ -46,6 +46,11 @@ def body(c):
     wide = out["wide"] + c.harness("h_qnum.py", {"mode": "aff", "seed": c.seed, "reps": 1 if c.quick else 6, "max_gs": 2 if c.quick else 5})["traces"]
     wres = c.validate("Trace_QNum", wide, chunk=16, constants=devs)
     c.judge(wide, wres, describe=lambda tr: {k: tr[0].get(k) for k in ("bits", "fmt", "shape", "axis", "gs", "tag")})
+    rec = [t for t in c.record_repo_tests(["test/tensor/quantizers", "test/nn/test_qlinear.py"] if c.quick else ["test"], limit=250 if c.quick else 1500)
+           if t[0]["act"] == "AffW"]
+    rres = c.validate("Trace_QNum", rec, chunk=16, constants=devs)
+    c.judge(rec, rres, describe=lambda tr: {k: tr[0].get(k) for k in ("bits", "fmt", "shape", "axis", "gs", "tag", "test")})
+    c.extra["repo_tests_recorded"]["affine_quantizer_calls_validated"] = len(rec)
     c.extra["wide_tensors"] = len(wide)
     c.extra["lattice_fallbacks_to_wide"] = len(out["wide"])
     c.extra["wide_groups"] = sum(len(t[0]["groups"]) for t in wide)
